@@ -212,6 +212,14 @@ def cellSlice (view : R → Bits × List R) : SOp R (Bits × List R) := do
 
 def isPrefix (tag : Bits) (s : Slice R) : Bool := s.bits.take tag.length == tag
 
+/-- the constructor tags `VmCont.deserialize` tests for -/
+def contTags : List Bits := [[false, false], [false, true], [true, false, false, false], [true, false, false, true],
+  [true, false, true, false, false], [true, true, false, false, false, false], [true, true, false, false, false, true],
+  [true, true, false, false, true, false], [true, true, false, false, true, true], [true, true, true, true]]
+
+/-- some branch of `VmCont.deserialize` is taken (otherwise it falls through and returns `None`) -/
+def contTagKnown (s : Slice R) : Bool := contTags.any (fun t => isPrefix t s)
+
 mutual
 /-- `VmStackValue.deserialize(cell_slice)`; an unknown tag falls through every `elif` and yields `None` -/
 def val (view : R → Bits × List R) (ord : R → Bool) : Nat → SOp R (Val R)
@@ -232,7 +240,10 @@ def val (view : R → Bits × List R) (ord : R → Bool) : Nat → SOp R (Val R)
       else if tag.take 1 == [4] then
         (do let _ ← loadBytes 1; let r ← cellSlice view; return Val.slice r.1 r.2) s
       else if tag.take 1 == [6] then
-        (do let _ ← loadBytes 1; let k ← cont view ord fuel; return Val.cont k) s
+        -- `return VmCont.deserialize(cell_slice)`: when no constructor tag matches this is `None`
+        (do let _ ← loadBytes 1
+            let known ← (fun s' => (s', some (contTagKnown s')))
+            if known then do let k ← cont view ord fuel; return Val.cont k else return Val.null) s
       else if tag.take 1 == [7] then
         (do let _ ← loadBytes 1
             let len ← loadUint 16
@@ -269,8 +280,9 @@ def stackList (view : R → Bits × List R) (ord : R → Bool) : Nat → Nat →
       let rest ← sub view (stackList view ord fuel (n - 1)) c
       let v ← val view ord fuel
       return v :: rest
-/-- `VmCont.deserialize(cell_slice)` (after fix F21: the tag is skipped); no tag matches -> `None` = `none` here,
-    because the caller's value would not be a continuation -/
+/-- `VmCont.deserialize(cell_slice)` (after fix F21: the tag is skipped).  When no tag matches Python returns
+    `None`: as a stack value that is handled in `val`; as a field of another continuation (`body=None`) the
+    result is not a continuation any more and is `none` here (the harness maps such results to `err`). -/
 def cont (view : R → Bits × List R) (ord : R → Bool) : Nat → SOp R (Cont R)
   | 0 => SOp.fail
   | fuel + 1 => fun s =>
